@@ -171,7 +171,11 @@ Repeatable == "repeat" \in done => rv = sv
 (***************************************************************************)
 (* Pools and starting contexts.                                            *)
 (***************************************************************************)
-Pool5 == {V("positron", "particle", "latex" :> S(<<"e+">>), "inc"),
+\* attribute NAMES that collide with the element protocol (a Sequence looks for "run", other
+\* containers for fill / compute / request / reset / fill_into) and with Variable's own members
+ProtocolAttrs == "run" :> I("1234") @@ "fill" :> S(<<"f">>) @@ "compute" :> N @@ "request" :> L(<<>>)
+                 @@ "reset" :> I("0") @@ "fill_into" :> S(<<"g">>) @@ "var_context" :> S(<<"vc">>)
+Pool5 == {V("positron", "particle", "latex" :> S(<<"e+">>) @@ ProtocolAttrs, "inc"),
           \* attribute values that look like nothing: 0, None, "", [], {}
           V("x", "coordinate", "scale" :> I("0") @@ "note" :> N @@ "label" :> S(<<>>)
                                @@ "bins" :> L(<<>>) @@ "opts" :> EmptyD, "dbl"),
